@@ -19,6 +19,7 @@ func C05(r *core.Report) {
 		"R2 size agreement - a bucket is written as a uint32 count followed by uint64 hashes and its recorded size is 4 + 8*count; the reader reads a 4-byte count at the bucket offset, skips 4 bytes and reads 8-byte elements at stride 8; the bucket's offset is recorded before the running offset is advanced; the header size stored excludes its own 4 bytes and the reader adds them back; " +
 		"R3 header field order - the sequence of fields written by createHeader equals the sequence read by readHeaderSize + readHeader; R4 the reader reports presence only through equality with the wanted hash, and treats only its own not-found sentinel as absence; " +
 		"R5 bucket storage independence - every slice put into the prefix table is freshly made or grown by append on itself (two buckets never share a backing array); R6 orientation - the writer sorts buckets ascending before laying them out and the reader's descent goes right exactly when the probed element is smaller than the target. " +
+		"R7 lookup re-entrancy - Reader.Has and what it reaches in the package neither assign fields of the shared Reader nor hand storage of the Reader to a read/copy as a buffer (concurrent getTransaction requests probe one Reader). " +
 		"Not decided: dedupe/sort/eytzinger/search correctness, membership for concrete multisets."
 	for _, pk := range []string{"bucketteer", "deprecated/bucketteer"} {
 		c05HashAndPrefix(r, pk)
@@ -27,13 +28,17 @@ func C05(r *core.Report) {
 		c05Presence(r, pk)
 		c05Storage(r, pk)
 		c05Orientation(r, pk)
+		if f := r.Anchor("C05.R7", pk+".(*Reader).Has"); f != nil {
+			checkReentrant(r, "C05.R7", f, "lookups")
+		}
 	}
 	r.Floor("C05.R1", 6)
 	r.Floor("C05.R2", 8)
 	r.Floor("C05.R3", 2)
 	r.Floor("C05.R4", 2)
 	r.Floor("C05.R5", 2)
-	r.Floor("C05.R6", 2)
+	r.Floor("C05.R6", 4)
+	r.Floor("C05.R7", 4)
 }
 
 func c05HashAndPrefix(r *core.Report, pk string) {
@@ -197,15 +202,32 @@ func c05Sizes(r *core.Report, pk string) {
 	// reader: 4-byte count at offset, skip 4, stride 8, 8-byte element reads
 	hi := has.Pkg.TypesInfo
 	var cntBuf, skip, stride int64 = -1, -1, -1
+	// the widths are taken from how the bytes are decoded (binary.*.Uint32 / Uint64), which is what fixes the format;
+	// where the buffers come from (make, a scratch array, a pool) does not matter
+	decodeWidth := func(info *types.Info, body ast.Node, intoLits bool) int64 {
+		w := int64(-1)
+		ast.Inspect(body, func(n ast.Node) bool {
+			if _, isLit := n.(*ast.FuncLit); isLit && !intoLits {
+				return false
+			}
+			if c, ok := n.(*ast.CallExpr); ok {
+				switch nm := core.CalleeName(info, c); {
+				case strings.HasSuffix(nm, "ndian).Uint16"):
+					w = 2
+				case strings.HasSuffix(nm, "ndian).Uint32"):
+					w = 4
+				case strings.HasSuffix(nm, "ndian).Uint64"):
+					w = 8
+				}
+			}
+			return true
+		})
+		return w
+	}
+	cntBuf = decodeWidth(hi, has.Body, false)
 	for _, fn := range has.AllWithLits() {
 		ast.Inspect(fn.Body, func(n ast.Node) bool {
 			switch x := n.(type) {
-			case *ast.AssignStmt:
-				if len(x.Rhs) == 1 {
-					if c, ok := core.Unparen(x.Rhs[0]).(*ast.CallExpr); ok && core.BuiltinName(hi, c) == "make" && len(c.Args) == 2 && strings.Contains(strings.ToLower(core.ExprStr(x.Lhs[0])), "numhashes") {
-						cntBuf, _ = core.ConstInt(hi, c.Args[1])
-					}
-				}
 			case *ast.CallExpr:
 				if core.CalleeName(hi, x) == "io.NewSectionReader" && len(x.Args) == 3 {
 					if be, ok := core.Unparen(x.Args[1]).(*ast.BinaryExpr); ok && be.Op == token.ADD {
@@ -222,13 +244,7 @@ func c05Sizes(r *core.Report, pk string) {
 	}
 	elRead := int64(-1)
 	if ru := r.Anchor(rule, pk+".readUint64Le"); ru != nil {
-		ri := ru.Pkg.TypesInfo
-		ast.Inspect(ru.Body, func(n ast.Node) bool {
-			if c, ok := n.(*ast.CallExpr); ok && core.BuiltinName(ri, c) == "make" && len(c.Args) == 2 {
-				elRead, _ = core.ConstInt(ri, c.Args[1])
-			}
-			return true
-		})
+		elRead = decodeWidth(ru.Pkg.TypesInfo, ru.Body, true)
 	}
 	r.Check(cntBuf == cntW && skip == cntW && stride == elW && elRead == elW, rule, pk+"#reader-widths=writer-widths", posP(r, has.Pos()),
 		"the reader uses the writer's widths (count 4, skip 4, stride 8, element 8)",
@@ -476,6 +492,47 @@ func c05Orientation(r *core.Report, pk string) {
 						}
 					}
 				}
+			}
+		}
+	}
+	// the layout pass is applied to every bucket that is written: the call dominates every later use of the sorted slice
+	// in seal (a bypass is accepted only under a guard that lets through buckets of fewer than two hashes)
+	{
+		g := p.Graph(seal)
+		for _, n := range stmtNodes(g) {
+			for _, c := range nodeCalls(n) {
+				if core.CalleeName(info, c) != pk+".sortWithCompare" || len(c.Args) != 2 {
+					continue
+				}
+				so := core.ObjOf(info, c.Args[0])
+				if so == nil {
+					continue
+				}
+				bad := ""
+				for _, m := range stmtNodes(g) {
+					if m == n || m.Ast.Pos() < c.End() || !core.MentionsOutsideLits(info, m.Ast, so) || g.Dominates(n, m) {
+						continue
+					}
+					// not dominated: acceptable only if the sort sits in `if len(x) > 1 { ... }` / `>= 2`
+					trivial := false
+					for _, d := range g.Dominators(n) {
+						if d.Kind != core.KEdge || !d.Truth || d.Ast == nil {
+							continue
+						}
+						if be, ok := d.Ast.(*ast.BinaryExpr); ok {
+							if lc, ok := core.Unparen(be.X).(*ast.CallExpr); ok && core.BuiltinName(info, lc) == "len" && core.ObjOf(info, lc.Args[0]) == so {
+								if v, ok := core.ConstInt(info, be.Y); ok && ((be.Op == token.GTR && v <= 1) || (be.Op == token.GEQ && v <= 2)) {
+									trivial = true
+								}
+							}
+						}
+					}
+					if !trivial {
+						bad = r.Prog.Rel(m.Ast.Pos())
+					}
+				}
+				r.Check(bad == "", rule, pk+"#layout-applied-to-every-bucket", pos(r, c), "every bucket that is written went through the sort + eytzinger layout pass",
+					"the sort + eytzinger layout pass can be skipped for a bucket that is still written (use at "+bad+"): the reader searches it in tree order and misses hashes that are present")
 			}
 		}
 	}
